@@ -12,6 +12,12 @@ _Bool vf_fault_enabled; /* harness switch: when 0 no write/close fault is inject
 const void *vf_trk_ptr = 0;
 int vf_trk_kind = 0;
 size_t vf_max_alloc = 0;
+_Bool vf_io_error_seen = 0; /* ghost (VF_TRACK_ALLOC builds): some stream operation failed */
+#ifdef VF_TRACK_ALLOC
+#define VF_IO_ERROR() (vf_io_error_seen = 1)
+#else
+#define VF_IO_ERROR() ((void)0)
+#endif
 
 #ifdef __CPROVER__VF
 _Bool nondet_vf_bool(void);
@@ -200,6 +206,7 @@ void vf_stream_ctor_open(vf_stream *f, const vf_string *path, int mode)
   f->writable = (mode & VF_IOS_out) != 0;
   if (!vf_file_openable) {
     f->fail = 1; /* basic_fstream(path,mode): open failure sets failbit */
+    VF_IO_ERROR();
     return;
   }
   f->is_open = 1;
@@ -211,6 +218,7 @@ void vf_stream_ctor_open(vf_stream *f, const vf_string *path, int mode)
 
 _Bool vf_stream_is_open(const vf_stream *f) { return f->is_open; }
 _Bool vf_stream_eof(const vf_stream *f) { return f->eof; }
+_Bool vf_stream_fail(const vf_stream *f) { return f->fail; }
 
 void vf_stream_read(vf_stream *f, char *dst, long n)
 {
@@ -247,6 +255,7 @@ void vf_stream_write(vf_stream *f, const char *src, long n)
     return;
   if (!f->is_open || !f->writable || f->pos < 0) {
     f->fail = 1;
+    VF_IO_ERROR();
     return;
   }
   size_t room = (size_t)f->pos < f->cap ? f->cap - (size_t)f->pos : 0;
@@ -255,6 +264,7 @@ void vf_stream_write(vf_stream *f, const char *src, long n)
   if (k > room || fault) {
     /* device full / write error: an arbitrary prefix may have been stored */
     f->fail = 1;
+    VF_IO_ERROR();
     return;
   }
   for (size_t i = 0; i < k; ++i)
@@ -314,8 +324,10 @@ void vf_stream_close(vf_stream *f)
     return;
   }
   f->is_open = 0;
-  if (f->writable && vf_fault_enabled && nondet_vf_fault())
+  if (f->writable && vf_fault_enabled && nondet_vf_fault()) {
     f->fail = 1; /* flushing the buffer failed */
+    VF_IO_ERROR();
+  }
 }
 
 /* ---------------- new / delete */
